@@ -1,7 +1,7 @@
 (* Extraction of the executable model to OCaml for the correspondence driver.
    ExtrOcamlBasic only: nat, N, Z, positive stay the extracted inductives. *)
-From PV Require Import Lib.Base Lib.Utf8 Syntax.RGrammar Syntax.Code Model.PState Model.Runtime.
+From PV Require Import Lib.Base Lib.Utf8 Syntax.RGrammar Syntax.Code Model.PState Model.Runtime Spec.Ref Spec.RefParse.
 Require Import ExtrOcamlBasic.
 Extraction Language OCaml.
 Set Extraction KeepSingleton.
-Extraction "model.ml" parse env_of_blocks decode perr_string init_state faithful repaired.
+Extraction "model.ml" pos_of parse env_of_blocks decode perr_string init_state faithful repaired rparse blocks_of_log relevant_terms far_pos far_expected.
